@@ -8,6 +8,8 @@ import CoercionModel.Generated.F10
 import CoercionModel.Proofs.TranslatedFinal
 import CoercionModel.Proofs.TranslatedFinalChain
 import CoercionModel.Proofs.SchedLive
+import CoercionModel.Model.SkeletonsGlue
+import CoercionModel.Generated.F15
 set_option linter.unusedSimpArgs false
 /-
   C04 — Wait returns a terminal, quiescent, consistent and truthful final plan.
@@ -189,5 +191,9 @@ theorem translated_finalStates (p : Plan) :
 example : (Generated.T7.run 6 .start { blocks := [{ status := .completed }, { status := .failed }] }).1.reason = .block := by decide
 example : (Generated.T7.run 6 .start { post := some { status := .completed }, blocks := [{ status := .completed }] }) =
     ({ status := .completed, post := some { status := .completed }, blocks := [{ status := .completed }] }, false) := by decide
+
+/-- the glue code this property's campaigns rest on (group `flushGlue` of Model/SkeletonsGlue: code no model mirrors) still has
+    the shape it was read with (regenerated from /repo on every run) -/
+theorem facts_glue_skeleton : Generated.F15.flushGlue = SkeletonsGlue.flushGlue := by rfl
 
 end Coercion.C04
